@@ -134,11 +134,12 @@ bool QXmppPubSubAffiliation::isAffiliation(const QDomElement &element)
         return false;
     }
 
+    // empty values are not serialized, so they are treated like missing attributes
     if (element.namespaceURI() == ns_pubsub) {
-        return element.hasAttribute(u"node"_s);
+        return !element.attribute(u"node"_s).isEmpty();
     }
     if (element.namespaceURI() == ns_pubsub_owner) {
-        return element.hasAttribute(u"jid"_s);
+        return !element.attribute(u"jid"_s).isEmpty();
     }
     return false;
 }
